@@ -1546,6 +1546,20 @@ func (c *Cluster) loadSegmentBatches(pd *partData, fsys fs, pdir string, base in
 	return result, nil
 }
 
+// truncateStateLog cuts a state log back to its valid prefix so that
+// entries appended after a restart are not hidden behind a torn tail.
+func (c *Cluster) truncateStateLog(fsys fs, path string, size int64) {
+	f, err := fsys.OpenFile(path, os.O_WRONLY, 0o644)
+	if err != nil {
+		c.cfg.logger.Logf(LogLevelWarn, "%s: open for truncate: %v", filepath.Base(path), err)
+		return
+	}
+	defer f.Close()
+	if err := f.Truncate(size); err != nil {
+		c.cfg.logger.Logf(LogLevelWarn, "%s: truncate: %v", filepath.Base(path), err)
+	}
+}
+
 func (c *Cluster) loadPIDsLog(fsys fs, dir string) error {
 	raw, err := fsys.ReadFile(filepath.Join(dir, "pids.log"))
 	if err != nil {
@@ -1559,6 +1573,8 @@ func (c *Cluster) loadPIDsLog(fsys fs, dir string) error {
 	entries, validBytes := readEntries(raw)
 	if validBytes < len(raw) {
 		c.cfg.logger.Logf(LogLevelWarn, "pids.log: discarding %d corrupt trailing bytes", len(raw)-validBytes)
+		c.truncateStateLog(fsys, filepath.Join(dir, "pids.log"), int64(validBytes))
+		c.pidsLogSize.Store(int64(validBytes))
 	}
 	for _, e := range entries {
 		var entry pidLogEntry
@@ -1616,6 +1632,8 @@ func (c *Cluster) loadGroupsLog(fsys fs, dir string) error {
 	entries, validBytes := readEntries(raw)
 	if validBytes < len(raw) {
 		c.cfg.logger.Logf(LogLevelWarn, "groups.log: discarding %d corrupt trailing bytes", len(raw)-validBytes)
+		c.truncateStateLog(fsys, filepath.Join(dir, "groups.log"), int64(validBytes))
+		c.groupsLogSize.Store(int64(validBytes))
 	}
 	r := replayGroupsLog(entries)
 
